@@ -42,6 +42,14 @@ def run(ctx, rep):
     T.check_folds(r7)
     r8 = rep.rule("bpm", "tempo value = int(raw)/1000: one correctly rounded division (0.001 steps exact to the nearest float)", floor=1)
     check_bpm_value(ctx, r8, T)
+    rb2 = rep.rule("tempo-lines", "every canonical tempo line '<tick> = B <n>' (any digit count, n from 1) is accepted and decoded by the B "
+                                  "recogniser: none is dropped (a dropped tempo line shifts every later time)", floor=4)
+    from .decode import check_from_chart_line
+    from .lang import check_line_recogniser
+    BQ = "chartparse.sync.BPMEvent.ParsedData"
+    info = check_from_chart_line(ctx, rb2, BQ)
+    if info is not None:
+        check_line_recogniser(ctx, BQ, info, rb2, rb2, rb2, only={"canon", "capture", "groups"})
     r9 = rep.rule("index", "governing index = last tempo event at or before the tick (guards + scan, C11)", floor=3)
     T.check_index(r9, r9)
     rch = rep.rule("chain", "file -> lines (read().splitlines(), utf-8-sig) -> framing -> section route -> dispatcher -> builders: every link "
